@@ -1300,7 +1300,7 @@ class Run:
         if concrete:
             return VStr(str, "".join(parts))
         self.note("f-string rendering of symbolic values is abstracted to an unconstrained str and assumed not to raise")
-        return VStr(str, self.fresh("fstr", z3.StringSort()))
+        return VStr(str, self.fresh("hv_fstr", z3.StringSort()))
 
     def e_Subscript(self, e, env):
         obj = self.eval(e.value, env)
